@@ -27,7 +27,7 @@ W = dict(once=0.75, nick=0.6, ref=0.3, formula=0.4, nested=0.06, friend=0.3, fwd
 def gen_case(rng):
     from .c04 import row_valued_in_once
     if rng.random() < 0.25:      # directed streams (DESIGN.md 11.4)
-        r, feats = rng.choice([S.stream_once_cluster, S.stream_once_hidden, S.stream_randref_nicks, S.stream_once_cluster_randref])(rng)
+        r, feats = rng.choice([S.stream_once_cluster, S.stream_once_hidden, S.stream_randref_nicks, S.stream_once_cluster_randref, S.stream_once_cluster_randref, S.stream_once_same_table_nick_order, S.stream_once_same_table_nick_order, S.stream_history_rows_hold_once_refs])(rng)
     else:
         for _ in range(50):
             r, feats = S.gen_recipe(rng, W)
@@ -95,6 +95,119 @@ def oracle(case, obs):
                     return (f"just-once-repeated: a row of just_once template tag {d['jo'][1]} (table {t}, id {d['id'][1]}) "
                             f"was created in iteration {iteration + 1} (run {ri + 1} of history {case['ks']})")
                 first_ids.setdefault(d["jo"][1], []).append(d["id"][1])
+    return constancy_oracle(case, runs) or deref_oracle(case, runs)
+
+
+def constancy_oracle(case, runs):
+    """a field whose definition reads only just_once rows - `reference: X`, `${{X.f}}` with X the nickname
+    of a just_once template or a table all of whose templates are just_once - denotes the same rows in
+    every iteration and every continuation run: its value never changes over the history"""
+    tpls = list(S.walk_templates(case["recipe"]))
+    top = [s[1] for s in case["recipe"]["stmts"] if s[0] == "obj"]
+    by_table = {}
+    for t in tpls:
+        by_table.setdefault(t["table"], []).append(t)
+    once_names = {t["nick"] for t in top if t.get("once") and t.get("nick")}
+    once_names |= {tb for tb, ts in by_table.items() if all(x.get("once") and x in top for x in ts)}
+    # a nickname also carried by an ordinary template is not a just_once-only name
+    once_names -= {t["nick"] for t in tpls if t.get("nick") and not t.get("once")}
+    var_names = {s[1] for s in case["recipe"]["stmts"] if s[0] == "var"} | {o[0] for o in case["recipe"].get("options", [])}
+    once_names -= var_names
+
+    def only_once(d):
+        if d[0] == "ref":
+            return d[1].split(".")[0] in once_names
+        if d[0] == "formula":
+            vs = []
+
+            def walk(e):
+                if e[0] == "var":
+                    vs.append((e[1], False))
+                elif e[0] == "attr":
+                    if e[1][0] == "var":
+                        vs.append((e[1][1], True))
+                    else:
+                        walk(e[1])
+                elif e[0] in ("add", "sub", "mul"):
+                    walk(e[1])
+                    walk(e[2])
+            for p in d[1]:
+                if p[0] == "e":
+                    walk(p[1])
+            return bool(vs) and all(n in once_names and attr for n, attr in vs)
+        return False
+    watch = {}
+    last_once = max([i for i, t in enumerate(top) if t.get("once")] or [-1])
+    for pos, t in enumerate(top):
+        if t.get("once") or len(by_table[t["table"]]) != 1 or t["table"] in once_names:
+            continue
+        if pos < last_once:
+            continue      # a reader placed before a just_once template sees a forward reference (its first
+                          # row) in the first iteration and the singleton (its last row) afterwards
+        own = {f for f, _ in t["fields"]}
+        fs = [f for f, d in t["fields"] if only_once(d) and not (own & once_names)]
+        if fs:
+            watch[t["table"]] = fs
+    seen = {}
+    for r in runs:
+        for t, fs in r["ok"]:
+            if t in watch:
+                d = dict((k, v) for k, v in fs)
+                for f in watch[t]:
+                    if f in d:
+                        key = (t, f)
+                        if key in seen and seen[key] != d[f]:
+                            return (f"just-once-denotation-changed: {t}.{f} reads only just_once rows; it showed {seen[key]} "
+                                    f"earlier in the history {case['ks']} and shows {d[f]} in row {d.get('id', ['', '?'])[1]}")
+                        seen.setdefault(key, d[f])
+    return None
+
+
+def deref_oracle(case, runs):
+    """a field that reads an attribute through a random_reference (p = random_reference X; q = ${{p.f}})
+    must show the value the referenced row has: its written field, its id, or - for the hidden __h0 of
+    the once_cluster_randref stream, defined as f0 + 90 - the value derived from the written f0"""
+    reads = {}          # (table, field) -> (reference field, attribute)
+    for t in S.walk_templates(case["recipe"]):
+        refs = {f for f, d in t["fields"] if d[0] == "randref"}
+        for f, d in t["fields"]:
+            if d[0] == "formula" and len(d[1]) == 1 and d[1][0][0] == "e":
+                e = d[1][0][1]
+                if e[0] == "attr" and e[1][0] == "var" and e[1][1] in refs:
+                    reads[(t["table"], f)] = (e[1][1], e[2])
+    if not reads:
+        return None
+    rows = {}
+    for r in runs:
+        for t, fs in r["ok"]:
+            d = dict((k, v) for k, v in fs)
+            if "id" in d:
+                rows[(t, d["id"][1])] = d
+    for r in runs:
+        for t, fs in r["ok"]:
+            d = dict((k, v) for k, v in fs)
+            for (tt, f), (pf, attr) in reads.items():
+                if tt != t or f not in d or pf not in d or d[pf][0] != "ref":
+                    continue
+                target = rows.get((d[pf][1], d[pf][2]))
+                if target is None:
+                    continue                      # hidden table: its rows are not written
+                if attr == "id":
+                    want = ["int", d[pf][2]]
+                elif attr == "__h0":
+                    if "f0" not in target or target["f0"][0] != "int":
+                        continue
+                    want = ["int", target["f0"][1] + 90]
+                elif attr in target:
+                    want = target[attr]
+                else:
+                    continue
+                got = d[f]
+                if got[0] == "str" and want[0] == "int" and got[1] == str(want[1]):
+                    continue                      # dialect 2 renders through text
+                if list(got) != list(want):
+                    return (f"value-through-reference: {t}.{f} reads {attr} of {d[pf][1]}({d[pf][2]}) through the random "
+                            f"reference {pf} and shows {got}, the row has {want}")
     return None
 
 
